@@ -86,7 +86,9 @@ RULE = ('quick: corpus (the witness schedules of the repaired defects) + directe
         'completions before the assignment everywhere, 60000 random schedules, and every rx schedule of <=3 input changes. After every event '
         'the observation is compared with the model and checked by the oracle. non-trivial = at least one result of an awaitable was '
         'applied; distinct = distinct canonical case')
-COVERAGE_TARGETS = ['step:result-rejected', 'complete:rejected-value', 'bump:while-task-registered', 'bump:also-reschedules-independent-reference', 'bump:no-dependent-reference',
+COVERAGE_TARGETS = ['again:while-linked', 'again:after-unlink', 'again:earlier-task-of-same-function-not-started',
+                    'rx:complete:superseded-generator-between-yields', 'rx:set:generator', 'trigger:watcher-assigns:cancels-registered', 'trigger:watcher-assigns:unlinks',
+                    'trigger:linked-parameter:cancels-registered', 'trigger:plain-parameter', 'step:result-rejected', 'complete:rejected-value', 'bump:while-task-registered', 'bump:also-reschedules-independent-reference', 'bump:no-dependent-reference',
                     'start:cancel-registered-older-evaluation', 'wake:cancelled-future:newer-task-registered',
                     'hook:in-step:cancels-registered', 'hook:in-step:unlinks', 'hook:in-step:not-linked', 'hook:on-driver-assignment',
                     'assign:coro', 'assign:agen', 'assign:plain:unlink-and-cancel', 'assign:plain:not-linked',
@@ -157,7 +159,9 @@ def _cls():
             def _validate_value(self, val, allow_None):
                 if isinstance(val, int) and not isinstance(val, bool) and val < 0:
                     raise ValueError(f'{self.name}: negative value {val}')
-        _CLS = type('T', (param.Parameterized,), {n: NonNegative(default=0, allow_refs=True) for n in NAMES})
+        ns = {n: NonNegative(default=0, allow_refs=True) for n in NAMES}
+        ns['c'] = param.Parameter(default=0)      # an ordinary parameter: only ever triggered
+        _CLS = type('T', (param.Parameterized,), ns)
     return _CLS
 
 
@@ -220,6 +224,10 @@ async def _drive_param(case, loop):
     if hook:
         a, b, w = hook
         t.param.watch(lambda e: setattr(t, NAMES[b], w), [NAMES[a]], onlychanged=False)
+    thook = case.get('thook')
+    if thook:
+        # a watcher of the ordinary parameter `c`; it only runs when the driver calls param.trigger('c')
+        t.param.watch(lambda e: setattr(t, NAMES[thook[0]], thook[1]), ['c'], onlychanged=False)
     futs = {}
 
     def fut(tid, k):
@@ -273,6 +281,7 @@ async def _drive_param(case, loop):
             for k in range(n):
                 yield await fut(tid, k)
         return g
+    last_fn = {}
     pz.async_executor = executor
     try:
         # `cfg`: which variant of the anchored code is installed (read from the source, see _facts);
@@ -283,9 +292,11 @@ async def _drive_param(case, loop):
             if kind == 'assign':
                 name = NAMES[e['p']]
                 if e['src'] == 'coro':
-                    setattr(t, name, coro_fn(e.get('dep', False)))
+                    last_fn[e['p']] = coro_fn(e.get('dep', False))
+                    setattr(t, name, last_fn[e['p']])
                 elif e['src'] == 'agen':
-                    setattr(t, name, agen_fn(len(e['v']), e.get('dep', False)))
+                    last_fn[e['p']] = agen_fn(len(e['v']), e.get('dep', False))
+                    setattr(t, name, last_fn[e['p']])
                 else:
                     setattr(t, name, e['v'][0])
             elif kind == 'tick':
@@ -298,6 +309,12 @@ async def _drive_param(case, loop):
                     f.set_result(-fut_value(e['t'], e['k']) if e.get('bad') else fut_value(e['t'], e['k']))
             elif kind == 'bump':
                 src.x += 1
+            elif kind == 'again':
+                # the SAME function object as the last one assigned to this parameter
+                if e['p'] in last_fn:
+                    setattr(t, NAMES[e['p']], last_fn[e['p']])
+            elif kind == 'trigger':
+                t.param.trigger('c' if e.get('p') is None else NAMES[e['p']])
             else:
                 raise RuntimeError(kind)
             out['steps'].append(_snapshot(t, log, spawns))
@@ -309,18 +326,25 @@ async def _drive_param(case, loop):
 async def _drive_rx(case, loop):
     import asyncio
     import param
-    results = [case['r0']] + [e['r'] for e in case['events'] if e['e'] == 'set']
+    nf = case.get('nf', 1)
+    gen = case.get('gen', False)
     futs = {}
     ncalls = [0]
 
-    def fut(k):
-        if k not in futs:
-            futs[k] = loop.create_future()
-        return futs[k]
-
-    async def slow(v):                    # evaluation number = the input value it was called with
-        ncalls[0] += 1
-        return await fut(v)
+    def fut(t, k):
+        if (t, k) not in futs:
+            futs[(t, k)] = loop.create_future()
+        return futs[(t, k)]
+    # evaluation number = the input value the function was called with
+    if gen:
+        async def slow(v):
+            ncalls[0] += 1
+            for k in range(nf):
+                yield await fut(v, k)
+    else:
+        async def slow(v):
+            ncalls[0] += 1
+            return await fut(v, 0)
     r = param.rx(0)
     e = r.rx.pipe(slow)
     log = []
@@ -345,9 +369,9 @@ async def _drive_rx(case, loop):
             if not await _idle(loop):
                 return {'crash': 'the loop did not become idle within 64 iterations'}
         elif ev['e'] == 'complete':
-            f = fut(ev['t'])
+            f = fut(ev['t'], ev.get('k', 0))
             if not f.done():
-                f.set_result(results[ev['t']])
+                f.set_result(fut_value(ev['t'], ev.get('k', 0)))
         out['steps'].append(snap())
     return out
 
@@ -389,8 +413,8 @@ def compare(impl, model):
 
 # ------------------------------------------------------------------ generation
 
-def _mk(events, hook=None):
-    return {'kind': 'param', 'np': NP, 'hook': hook, 'events': events}
+def _mk(events, hook=None, thook=None):
+    return {'kind': 'param', 'np': NP, 'hook': hook, 'thook': thook, 'events': events}
 
 
 def _values(tid, n):
@@ -512,20 +536,25 @@ def _shadow_tasks(events):
     """the tasks a correct library schedules for these events: [(tid, n_futs)].  (Generator-side
     only, to know which completions make sense; a completion of a future nobody awaits is harmless.)"""
     links = {}                      # p -> (n_futs, dep), insertion-ordered
+    fns = {}                        # p -> the function last assigned
     out = []
     for e in events:
         if e['e'] == 'assign':
             links.pop(e['p'], None)
             if e['src'] != 'plain':
-                links[e['p']] = (len(e['v']), bool(e.get('dep')))
+                links[e['p']] = fns[e['p']] = (len(e['v']), bool(e.get('dep')))
                 out.append((len(out), len(e['v'])))
         elif e['e'] == 'bump' and any(d for _, d in links.values()):
             for n, _ in list(links.values()):
                 out.append((len(out), n))
+        elif e['e'] == 'again' and e['p'] in fns:
+            links.pop(e['p'], None)
+            links[e['p']] = fns[e['p']]
+            out.append((len(out), fns[e['p']][0]))
     return out
 
 
-def _dep_schedules(tier):
+def _dep_schedules(tier, mover=None):
     """references with a dependency: one or two linked parameters, 1-2 source changes, optionally a plain
     assignment, in every order, ticks in between; then the futures of every task (those scheduled by
     the source changes included) completed in several orders, ticking after each completion or once
@@ -539,10 +568,10 @@ def _dep_schedules(tier):
                 if second is not None and nb == 2 and quick:
                     continue
                 for plain_p in (None, 0) + ((1,) if second is not None and not quick else ()):
-                    base = [dict(_assign(0, k0, 0, 0), dep=True)]
+                    base = [dict(_assign(0, k0, 0, 0), dep=(mover is None))]
                     if second is not None:
                         base.append(dict(_assign(1, second[0], 1, 0), dep=second[1]))
-                    movable = [{'e': 'bump'}] * nb + ([_assign(plain_p, 'plain', 0, 0)] if plain_p is not None else [])
+                    movable = [mover or {'e': 'bump'}] * nb + ([_assign(plain_p, 'plain', 0, 0)] if plain_p is not None else [])
                     seen = set()
                     for perm in itertools.permutations(range(len(movable))):
                         seq = [movable[i] for i in perm]
@@ -640,6 +669,30 @@ def _fault_schedules(tier):
                         yield out
 
 
+def _trigger_schedules(tier):
+    """obj.param.trigger at every point of every schedule of <=2 assignments: of the ordinary parameter `c`
+    whose watcher assigns a plain value to parameter 0 / 1, and of a (possibly linked) parameter itself"""
+    quick = tier == 'quick'
+    for n in (1, 2):
+        firsts = ['coro', 'agen2']
+        for srcs in itertools.product(['coro', 'agen2', 'plain'], repeat=n):
+            if srcs[0] == 'plain' or (quick and srcs.count('agen2') == 2):
+                continue
+            for params in _param_choices(n):
+                for evs in _schedules(srcs, params):
+                    if quick and n == 2 and sum(1 for e in evs if e['e'] == 'tick') not in (1, len(evs) // 2 + 1, len([e for e in evs if e['e'] != 'tick'])):
+                        continue
+                    for pos in range(1, len(evs) + 1):
+                        for trig, thook in (({'e': 'trigger'}, [0, 700]), ({'e': 'trigger'}, [1, 700]),
+                                            ({'e': 'trigger', 'p': 0}, None), ({'e': 'trigger', 'p': 1}, None)):
+                            if quick and (thook == [1, 700] or trig.get('p') == 1) and 1 not in params:
+                                continue
+                            out = [dict(e) for e in evs[:pos]] + [dict(trig)] + [dict(e) for e in evs[pos:]]
+                            if out[-1]['e'] != 'tick':
+                                out.append({'e': 'tick'})
+                            yield out, thook
+
+
 def _hook_schedules(tier):
     """a watcher on one parameter that assigns a plain value to the other one: every schedule of two
     assignments (three in thorough) with the hook in both directions"""
@@ -710,18 +763,28 @@ def _random_param_case(rng, max_assign):
         for ev in extra:
             if rng.random() < 0.9:
                 out.insert(rng.randint(max(0, len(out) - 6), len(out)), ev)
+    if rng.random() < 0.2:
+        for _ in range(rng.randint(1, 2)):
+            out.insert(rng.randint(1, len(out)), {'e': 'again', 'p': rng.randrange(NP)})
+    thook = None
+    if rng.random() < 0.3:
+        thook = [rng.randrange(NP), 700]
+        for _ in range(rng.randint(1, 2)):
+            ev = {'e': 'trigger'} if rng.random() < 0.6 else {'e': 'trigger', 'p': rng.randrange(NP)}
+            out.insert(rng.randint(0, len(out)), ev)
     if rng.random() < 0.35:
         out = [dict(e, bad=True) if e['e'] == 'complete' and rng.random() < 0.25 else e for e in out]
     if rng.random() < 0.9 and (not out or out[-1]['e'] != 'tick'):
         out.append({'e': 'tick'})
-    return _mk(out, hook)
+    return _mk(out, hook, thook)
 
 
-def _rx_schedules(nset):
-    """every schedule of an rx pipeline with `nset` input changes: evaluations 0..nset completed in every
-    order relative to the sets and to each other (after their evaluation was requested), ticks anywhere"""
+def _rx_schedules(nset, nf=1, gen=False, full_ticks=True):
+    """every schedule of an rx pipeline with `nset` input changes: the awaitables of evaluations 0..nset
+    (nf each, in yield order) completed in every order relative to the sets and to each other (after
+    their evaluation was requested), ticks anywhere"""
     S = [('S', i) for i in range(1, nset + 1)]
-    chains = [S] + [[('C', t)] for t in range(nset + 1)]
+    chains = [S] + [[('C', t, k) for k in range(nf)] for t in range(nset + 1)]
     for order in _orders(chains):
         seen, ok = {0}, True
         for x in order:
@@ -732,15 +795,17 @@ def _rx_schedules(nset):
                 break
         if not ok:
             continue
-        evs = [{'e': 'set', 'r': 10 * (x[1] + 1)} if x[0] == 'S' else {'e': 'complete', 't': x[1]} for x in order]
+        evs = [{'e': 'set'} if x[0] == 'S' else {'e': 'complete', 't': x[1], 'k': x[2]} for x in order]
         n = len(evs)
-        for mask in range(1 << n):
+        masks = range(1 << n) if full_ticks else sorted({(1 << n) - 1, (1 << n) - 2, 0, 1, 0x5555 & ((1 << n) - 1),
+                                                           0xAAAA & ((1 << n) - 1)})
+        for mask in masks:
             out = [{'e': 'tick'}] if mask & 1 else []
             for i, e in enumerate(evs):
                 out.append(dict(e))
                 if i == n - 1 or (mask >> (i + 1)) & 1:
                     out.append({'e': 'tick'})
-            yield {'kind': 'rx', 'r0': 10, 'events': out}
+            yield {'kind': 'rx', 'nf': nf, 'gen': gen, 'events': out}
 
 
 def _burst(srcs, params):
@@ -876,17 +941,26 @@ def cases(rng, tier, worker, nworkers):
     for evs in _fault_schedules(tier):
         if mine():
             yield _mk(evs)
+    # the SAME function object assigned again (Python compares references by identity)
+    for evs in _dep_schedules(tier, mover={'e': 'again', 'p': 0}):
+        if mine():
+            yield _mk(evs)
+    # obj.param.trigger: a watcher run by it assigns a plain value; triggering a linked parameter
+    for evs, thook in _trigger_schedules(tier):
+        if mine():
+            yield _mk(evs, None, thook)
     # a watcher that overrides the other parameter with a plain value
     for evs, hook in _hook_schedules(tier):
         if mine():
             yield _mk(evs, hook)
+    # expression pipelines: coroutine function, async generator function with 1 and 2 yields
     if tier == 'thorough':
-        for nset in (1, 2, 3):
-            for c in _rx_schedules(nset):
-                if mine():
-                    yield c
+        fams = [(1, 1, False, True), (2, 1, False, True), (3, 1, False, True), (1, 1, True, True), (2, 1, True, True),
+                (1, 2, True, True), (2, 2, True, False), (1, 3, True, False)]
     else:
-        for c in itertools.islice(_rx_schedules(1), 0, None):
+        fams = [(1, 1, False, True), (1, 1, True, True), (1, 2, True, False), (2, 2, True, False)]
+    for nset, nf, gen, full in fams:
+        for c in _rx_schedules(nset, nf, gen, full):
             if mine():
                 yield c
     n_random = 1000 if tier == 'quick' else 60000 // nworkers
@@ -898,7 +972,8 @@ def cases(rng, tier, worker, nworkers):
 
 def tags(case, impl):
     if case['kind'] == 'rx':
-        return ['kind:rx', f'rx:sets={sum(1 for e in case["events"] if e["e"] == "set")}']
+        return ['kind:rx', f'rx:sets={sum(1 for e in case["events"] if e["e"] == "set")}',
+                'rx:async-generator:yields=%d' % case.get('nf', 1) if case.get('gen') else 'rx:coroutine']
     evs = case['events']
     na = sum(1 for e in evs if e['e'] == 'assign')
     t = ['kind:param', f'assignments={na}',
@@ -913,6 +988,8 @@ def tags(case, impl):
         t.append(f'bumps={min(nb, 3)}')
     if any(e.get('bad') for e in evs):
         t.append('rejected-result')
+    if any(e['e'] == 'trigger' for e in evs):
+        t.append('trigger')
     return t
 
 
@@ -924,6 +1001,8 @@ def nontrivial(case, impl, resp):
     plain = {e['v'][0] for e in case['events'] if e['e'] == 'assign' and e['src'] == 'plain'}
     if case.get('hook'):
         plain.add(case['hook'][2])
+    if case.get('thook'):
+        plain.add(case['thook'][1])
     return resp.get('checked_steps', 0) >= 1 and any(v not in plain for s in impl['steps'] for _, v in s['log'])
 
 
@@ -936,6 +1015,8 @@ def shrink(case):
         return
     if case.get('hook'):
         yield dict(case, hook=None)
+    if case.get('thook') and not any(e['e'] == 'trigger' and e.get('p') is None for e in evs):
+        yield dict(case, thook=None)
     # remove one event; removing an asynchronous assignment removes its completions and renumbers later tasks
     tid_of = {}
     tid = 0
